@@ -1,5 +1,7 @@
 import AlgopyVerif.Proofs.NthDeriv
 import AlgopyVerif.Proofs.NthPiecewise
+import AlgopyVerif.Proofs.NthErf
+import AlgopyVerif.Proofs.SpecialFns
 /-!
 # C16 — closed-form n-th derivatives are the true derivatives
 
@@ -17,7 +19,9 @@ reciprocal, sin, cos, sinh, cosh, arctanh`; `gammaln/psi/polygamma` and `hyperu`
 the first-order relations of their SciPy leaves (Mathlib has no polygamma / Tricomi U).
 Not yet proved (modelled in exact Gaussian-rational arithmetic and tied by correspondence +
 contour-integral oracle): `arctan, arcsin, arccos, arcsinh, arccosh` (Legendre / complex
-closed forms), `erf, erfi` (finite sums).  The piecewise functions away from their jumps / kinks:
+closed forms).  `erf, erfi` (finite sums): `erf_nth`, `erfi_nth` — for the concrete functions
+`c ∫₀ˣ exp(∓s²) ds` and any `c` (`c = 2/√π` is erf / erfi), through the polynomial recursion
+`R₀ = 1, R_{N+1} = R_N' ∓ 2 X R_N` and its explicit coefficients (`Proofs/NthErf.lean`).  The piecewise functions away from their jumps / kinks:
 `step_nth` (every function that is constant near `x`: `rint, fix, floor, ceil, trunc, sign`), with the instances
 `floor_nth`, `ceil_nth`, `sign_nth`, and `absolute_nth` (`|x|`: order 1 is `sign x`, higher orders 0).
 -/
@@ -138,6 +142,28 @@ theorem hyperu_nth (a : ℝ) (u : ℕ → ℝ → ℝ) (S : Set ℝ) (hS : IsOpe
   simpa [negOnePow, pochK] using this
 
 /-! non-vacuity: the closed forms on concrete rationals -/
+/-- **`erf`**: every order, every point; `erfC c = fun y => c ∫₀ʸ exp(-s²) ds` -/
+theorem erf_nth (c : ℝ) (n : ℕ) (x : ℝ) :
+    iteratedDeriv n (erfC c) x = dErf (erfC c x) (c * Real.exp (-(x * x))) x n := by
+  have := iteratedDeriv_erf_model true c (erfC c) (fun y => by simpa using erfC_hasDerivAt c y) n x
+  simpa [dErf] using this
+
+/-- **`erfi`**: every order, every point; `erfiC c = fun y => c ∫₀ʸ exp(s²) ds` -/
+theorem erfi_nth (c : ℝ) (n : ℕ) (x : ℝ) :
+    iteratedDeriv n (erfiC c) x = dErfi (erfiC c x) (c * Real.exp (x * x)) x n := by
+  have := iteratedDeriv_erf_model false c (erfiC c) (fun y => by simpa using erfiC_hasDerivAt c y) n x
+  simpa [dErfi] using this
+
+/-- any other antiderivative of `c exp(∓y²)` has the same closed form (the statement does not depend on
+how `erf` is normalised at 0) -/
+theorem erf_like_nth (alt : Bool) (c : ℝ) (E : ℝ → ℝ)
+    (hE : ∀ y, HasDerivAt E (c * Real.exp ((if alt then -1 else 1) * (y * y))) y) (n : ℕ) (x : ℝ) :
+    iteratedDeriv n E x
+      = if n = 0 then E x else (c * Real.exp ((if alt then -1 else 1) * (x * x))) * erfPoly alt x n :=
+  iteratedDeriv_erf_model alt c E hE n x
+
+example : dErf (0:ℚ) 1 (1/2) 3 = -1 := by decide +kernel
+example : dErfi (0:ℚ) 1 2 4 = 88 := by decide +kernel
 example : dLog (0:ℚ) 2 3 = 1/4 := by decide +kernel
 example : dReciprocal (2:ℚ) 2 = 1/4 := by decide +kernel
 example : dSin (3/5 : ℚ) (4/5) 6 = -3/5 := by decide +kernel
